@@ -417,11 +417,15 @@ where
 impl<A, B, C> Layered<A, B, C>
 where
     A: Subscribe<C>,
+    B: 'static,
     C: Collect,
 {
     pub(super) fn new(subscriber: A, inner: B, inner_has_subscriber_filter: bool) -> Self {
+        // Is the *inner value* of this node the registry? (In a tree-shaped
+        // `Layered` built by `and_then`, the inner value is another subscriber
+        // even when the collector type parameter `C` is the registry.)
         #[cfg(all(feature = "registry", feature = "std"))]
-        let inner_is_registry = TypeId::of::<C>() == TypeId::of::<crate::registry::Registry>();
+        let inner_is_registry = TypeId::of::<B>() == TypeId::of::<crate::registry::Registry>();
         #[cfg(not(all(feature = "registry", feature = "std")))]
         let inner_is_registry = false;
 
